@@ -35,6 +35,7 @@ CFG = {
         "Swat4.C14.facts_frontend_liveness",
         # RefLeUpd as an invariant of the system model (reviewer item 8)
         "Swat4.C14.usecases_walk_on_moving_clock",
+        "Swat4.C14.usecases_walk_on_moving_clock_more",
         "Swat4.C14.refLeUpd_usys",
         "Swat4.TimedInv.usys_inv",
         # the cleanup pass inside the system model: C14_race's premise derived from the run
@@ -69,11 +70,11 @@ CFG = {
             "between scan and delete, between deletes) or after the FIRST STORAGE COMMAND of the scan (between the index read and the record fetch), retention boundary at +0/+256/+512ns; compared: repository calls, results, keyspace; "
             "oracle: an independent bookkeeping simulator (exists / last refresh / last write per address; address / last write per instance) for listings, "
             "server removals, instance removals (the final instance table, and keepalives succeed iff instance and server are still stored), and "
-            "'the refreshed server survives, the stale ones are removed' for races",
+            "'the refreshed server survives, the stale ones are removed' for races (a refresh that found the server already removed - err:notfound - is accepted only with the server gone; any other or unparsable result fails); (fault) a storage fault at one removal: at most one outdated server per fault survives, every survivor is one of the OUTDATED planted servers, no fresh one is removed",
     "assumptions": [
         "each repository call is atomic at its commit (C09); the race is generated at call granularity",
         "refreshedAt <= updatedAt for every stored record is now a theorem (refLeUpd_preserved: invariant of every use case run at a clock value not before any stored update time, i.e. on a monotone clock; a backward clock step breaks it — witness in Properties/C14.lean); it is still checked on every dump by the correspondence (UP >= RF)",
-        "refLeUpd_usys: refreshedAt <= updatedAt <= clock is an invariant of every USys run (any clients whose programs walk on a moving clock - all use cases do -, any interleaving of calls, crashes, faults, and ticks with NON-NEGATIVE advance)",
+        "refLeUpd_usys: refreshedAt <= updatedAt <= clock is an invariant of every USys run (any clients whose programs walk on a moving clock - usecases_walk_on_moving_clock: the eleven use-case programs report, renew, remove, probe, refresh, revive, addServer, cleanServers, cleanServers2, cleanInstances, listServers; usecases_walk_on_moving_clock_more: Heartbeat6.renewIP [the dg6 keepalive] and the prober runner UC.proberRunWith / UC.proberRun [the pop client]; a client built from other calls is not covered -, any interleaving of calls, crashes, faults, and ticks with NON-NEGATIVE advance)",
         "clean_race_run quantifies over interleavings in which every client other than the cleaner never issues a Remove (heartbeat, keepalive, probes, REST submission, refresh, revival, listing) and the cleaner neither crashes nor meets a storage fault; with a removing client the statement is false in the model AND in the code: remove + re-registration restarts the version counter, and the cleaner's Remove with its stale copy (stored version not newer: servers.go:184) deletes the fresh registration without consulting the conflict callback (witness in Properties/C14.lean)",
         "rows sit under their own address key (Keyed: hypothesis of clean_complete / refreshedAt_changes_only_by; invariant by C16 keyed_preserved and refLeUpd_preserved)",
         "instance cleanup uses an inclusive bound where server cleanup uses an exclusive one (as coded; both mirrored)",
